@@ -1,10 +1,15 @@
 package scen
 
 import (
+	"bufio"
+	"bytes"
 	"fmt"
 	"io"
+	"strings"
 	"sync"
 	"time"
+
+	"github.com/gorilla/websocket"
 
 	"github.com/cnotch/ipchub/av/format/rtp"
 	"github.com/cnotch/ipchub/media"
@@ -248,4 +253,362 @@ func buildC13(tier string) sim.Scenario {
 		sw.teardown()
 	}
 	return sim.Scenario{Main: main, Final: final, Cleanup: cleanup}
+}
+
+func init() {
+	Register(&Def{
+		Prop: "C13", Name: "websocket", Level: "exploration",
+		Build:        buildC13WS,
+		Cfg:          sim.RunConfig{Grace: time.Minute, Horizon: time.Hour, StepCap: 400000},
+		RunsQuick:    1500,
+		RunsThorough: 150000,
+		Real: []string{"service.onWebSocketRequest + websocket.TryUpgrade (gorilla server side)", "service/rtsp Session on a WebSocket (response and tcpConsumer wsconn branches)", "service/wsp control and data channels (INIT, JOIN, WRAP; Session.Consume)",
+			"network/websocket transport (write mutex)", "media delivery goroutine"},
+		Stub: []string{"TCP (sim.Conn) under the harness HTTP loop; the client is gorilla/websocket over sim.Conn", "publisher = harness task"},
+		Rule: "one run = a playing session over ws-rtsp (one WebSocket) or WSP (control + data WebSocket), 15-50 published packets of 13..30000 bytes with fake-clock gaps, 4-15 OPTIONS/PLAY requests at tape-chosen moments; " +
+			"every WebSocket message the client receives must be exactly one complete RTSP response (WSP: one WSP response wrapping at most one RTSP response) or exactly one complete interleaved frame equal to a published packet, contiguous per channel; one response per request. " +
+			"distinct = decision-sequence hash; non-trivial = at least one pre-emption",
+		Assumptions:    []string{"WebSocket framing itself is gorilla's (real code on both ends)"},
+		RequiredProbes: []string{"c13ws.ws-rtsp", "c13ws.wsp", "c13ws.frames-delivered", "c13ws.single-track"},
+	})
+}
+
+func wsOneMessage(b []byte) (*oracle.WireMsg, error) {
+	if len(b) == 0 {
+		return nil, fmt.Errorf("empty WebSocket message (neither a response nor a frame)")
+	}
+	br := bufio.NewReader(bytes.NewReader(b))
+	m, err := oracle.ReadWire(br)
+	if err != nil {
+		return nil, err
+	}
+	if br.Buffered() > 0 {
+		return nil, fmt.Errorf("%d bytes follow the first complete %s in the same WebSocket message", br.Buffered(), map[bool]string{true: "frame", false: "response"}[m.Frame])
+	}
+	return m, nil
+}
+
+func buildC13WS(tier string) sim.Scenario {
+	var sw *svcWorld
+	main := func(w *sim.World) {
+		w.PanicClass = "C13/panic"
+		tp := w.Tape
+		sw = newSvcWorld(w, false, tp.Bool(), nil, nil)
+		wsp := tp.Bool()
+		nPk := 15 + tp.Choose(36)
+		nReq := 4 + tp.Choose(12)
+		tracks := 2 - tp.Choose(3)/2 // 2,2,1
+		sizes := make([]int, nPk)
+		gaps := make([]time.Duration, nPk)
+		for i := range sizes {
+			switch tp.Choose(6) {
+			case 0:
+				sizes[i] = 30000
+			case 1:
+				sizes[i] = 13
+			default:
+				sizes[i] = 40 + tp.Choose(1400)
+			}
+			gaps[i] = []time.Duration{0, 0, time.Millisecond, 10 * time.Millisecond, 40 * time.Millisecond}[tp.Choose(5)]
+		}
+		reqGaps := make([]time.Duration, nReq)
+		for i := range reqGaps {
+			reqGaps[i] = []time.Duration{0, 0, time.Millisecond, 5 * time.Millisecond, 33 * time.Millisecond}[tp.Choose(5)]
+		}
+		stream := media.NewStream("/live/a", sdpH264AAC)
+		media.Regist(stream)
+		base := "rtsp://10.9.0.1:554/live/a"
+		w.Logf("c13ws wsp=%v pk=%d req=%d", wsp, nPk, nReq)
+
+		var ctl, data *websocket.Conn
+		var err error
+		cseq := 0
+		wspSeq := 0
+		channel := ""
+		// send one RTSP request; WSP wraps it
+		send := func(method, url string, hdr map[string]string) (int, error) {
+			cseq++
+			var sb strings.Builder
+			fmt.Fprintf(&sb, "%s %s RTSP/1.0\r\nCSeq: %d\r\n", method, url, cseq)
+			for k, v := range hdr {
+				fmt.Fprintf(&sb, "%s: %s\r\n", k, v)
+			}
+			sb.WriteString("\r\n")
+			if wsp {
+				wspSeq++
+				body := sb.String()
+				msg := fmt.Sprintf("WSP/1.1 WRAP\r\nchannel: %s\r\ncontentLength: %d\r\nseq: %d\r\n\r\n%s", channel, len(body), wspSeq, body)
+				return cseq, ctl.WriteMessage(websocket.TextMessage, []byte(msg))
+			}
+			return cseq, ctl.WriteMessage(websocket.BinaryMessage, []byte(sb.String()))
+		}
+		// read one response on the control connection (frames may come first on ws-rtsp)
+		var frames []*oracle.WireMsg
+		readResp := func() (*oracle.WireMsg, error) {
+			for {
+				ctl.SetReadDeadline(time.Now().Add(10 * time.Second))
+				_, b, err := ctl.ReadMessage()
+				if err != nil {
+					return nil, err
+				}
+				if wsp {
+					i := bytes.Index(b, []byte("\r\n\r\n"))
+					if i < 0 || !bytes.HasPrefix(b, []byte("WSP/1.1 200")) {
+						return nil, fmt.Errorf("not a WSP response: %q", b[:minInt(60, len(b))])
+					}
+					b = b[i+4:]
+					if len(b) == 0 {
+						return &oracle.WireMsg{Status: 200, Proto: "WSP"}, nil
+					}
+				}
+				m, err := wsOneMessage(b)
+				if err != nil {
+					return nil, err
+				}
+				if m.Frame {
+					frames = append(frames, m)
+					continue
+				}
+				return m, nil
+			}
+		}
+		if wsp {
+			w.Probe("c13ws.wsp")
+			ctl, _, err = sw.wsDial("wspctl", "/streams/live/a", "control", nil)
+			if err != nil {
+				w.Fail("C13/harness", "wsp control upgrade: %v", err)
+				return
+			}
+			ctl.WriteMessage(websocket.TextMessage, []byte("WSP/1.1 INIT\r\nproto: rtsp\r\nseq: 1\r\n\r\n"))
+			_, b, err := ctl.ReadMessage()
+			if err != nil {
+				w.Fail("C13/harness", "wsp INIT: %v", err)
+				return
+			}
+			for _, l := range strings.Split(string(b), "\r\n") {
+				if strings.HasPrefix(l, "channel: ") {
+					channel = strings.TrimPrefix(l, "channel: ")
+				}
+			}
+			wspSeq = 1
+			data, _, err = sw.wsDial("wspdata", "/streams/live/a", "data", nil)
+			if err != nil {
+				w.Fail("C13/harness", "wsp data upgrade: %v", err)
+				return
+			}
+			data.WriteMessage(websocket.TextMessage, []byte(fmt.Sprintf("WSP/1.1 JOIN\r\nchannel: %s\r\nseq: 2\r\n\r\n", channel)))
+			if _, b, err := data.ReadMessage(); err != nil || !bytes.HasPrefix(b, []byte("WSP/1.1 200")) {
+				w.Fail("C13/harness", "wsp JOIN: %v %q", err, b)
+				return
+			}
+			wspSeq = 2
+		} else {
+			w.Probe("c13ws.ws-rtsp")
+			ctl, _, err = sw.wsDial("wsrtsp", "/streams/live/a", "rtsp", nil)
+			if err != nil {
+				w.Fail("C13/harness", "ws-rtsp upgrade: %v", err)
+				return
+			}
+		}
+		type wsReq struct {
+			m, u string
+			h    map[string]string
+		}
+		prelude := []wsReq{
+			{"DESCRIBE", base, nil},
+			{"SETUP", base + "/streamid=0", map[string]string{"Transport": "RTP/AVP/TCP;unicast;interleaved=0-1"}},
+			{"SETUP", base + "/streamid=1", map[string]string{"Transport": "RTP/AVP/TCP;unicast;interleaved=2-3"}},
+			{"PLAY", base, nil},
+		}
+		if tracks == 1 { // only the video track is subscribed: audio packets must simply not be sent
+			prelude = append(prelude[:2], prelude[3])
+			w.Probe("c13ws.single-track")
+		}
+		for _, r := range prelude {
+			if _, err := send(r.m, r.u, r.h); err != nil {
+				w.Fail("C13/harness", "%s: %v", r.m, err)
+				return
+			}
+			m, err := readResp()
+			if err != nil || m.Status != 200 {
+				w.Fail("C13/harness", "%s over %s: %v %+v", r.m, map[bool]string{true: "WSP", false: "ws-rtsp"}[wsp], err, m)
+				return
+			}
+		}
+		var mu sync.Mutex
+		var ctlMsgs, dataMsgs [][]byte
+		var pubs []*rtp.Packet
+		var sent []int
+		ctlDone := make(chan struct{})
+		dataDone := make(chan struct{})
+		ctl.SetReadDeadline(time.Time{})
+		w.Go("ctlreader", func() {
+			defer close(ctlDone)
+			for {
+				_, b, err := ctl.ReadMessage()
+				if err != nil {
+					return
+				}
+				mu.Lock()
+				ctlMsgs = append(ctlMsgs, b)
+				mu.Unlock()
+			}
+		})
+		if wsp {
+			w.Go("datareader", func() {
+				defer close(dataDone)
+				for {
+					_, b, err := data.ReadMessage()
+					if err != nil {
+						return
+					}
+					mu.Lock()
+					dataMsgs = append(dataMsgs, b)
+					mu.Unlock()
+				}
+			})
+		} else {
+			close(dataDone)
+		}
+		var wg sync.WaitGroup
+		wg.Add(2)
+		w.Go("pub", func() {
+			defer wg.Done()
+			vseq, aseq := uint16(1), uint16(1)
+			for i := 0; i < nPk; i++ {
+				var p *rtp.Packet
+				if i%4 == 3 && sizes[i] < 8000 {
+					p = mkRTP(rtp.ChannelAudio, 97, aseq, uint32(i)*1024, true, aacPayload(blob(i, sizes[i])))
+					aseq++
+				} else {
+					typ := byte(1)
+					if i%10 == 0 {
+						typ = 5
+					}
+					p = mkRTP(rtp.ChannelVideo, 96, vseq, uint32(i)*3000, true, nalH264(typ, i, sizes[i]))
+					vseq++
+				}
+				pubs = append(pubs, p)
+				if stream.WriteRtpPacket(p) != nil {
+					return
+				}
+				if gaps[i] > 0 {
+					w.Sleep(gaps[i])
+				} else {
+					w.Y("pub.next")
+				}
+			}
+		})
+		w.Go("requester", func() {
+			defer wg.Done()
+			for i := 0; i < nReq; i++ {
+				if reqGaps[i] > 0 {
+					w.Sleep(reqGaps[i])
+				} else {
+					w.Y("req.next")
+				}
+				method := []string{"OPTIONS", "PLAY"}[w.Tape.Choose(2)]
+				c, err := send(method, base, nil)
+				if err != nil {
+					return
+				}
+				mu.Lock()
+				sent = append(sent, c)
+				mu.Unlock()
+			}
+		})
+		wg.Wait()
+		w.Sleep(2 * time.Second)
+		ctl.Close()
+		if data != nil {
+			data.Close()
+		}
+		<-ctlDone
+		<-dataDone
+
+		// ---- oracle ----
+		kind := map[bool]string{true: "WSP", false: "ws-rtsp"}[wsp]
+		perCh := map[int][]*rtp.Packet{}
+		for _, p := range pubs {
+			perCh[int(p.Channel)] = append(perCh[int(p.Channel)], p)
+		}
+		next := map[int]int{}
+		for _, f := range frames {
+			_ = f
+		}
+		checkFrame := func(i int, m *oracle.WireMsg, where string) bool {
+			q := perCh[m.Channel]
+			k, started := next[m.Channel]
+			if !started {
+				for j, p := range q {
+					if string(p.Data) == string(m.Payload) {
+						k = j
+						break
+					}
+				}
+			}
+			if k >= len(q) || string(q[k].Data) != string(m.Payload) {
+				w.Fail("C13/frame-mismatch", "%s %s message %d: the interleaved frame (channel %d, %d bytes) is not the next published packet of its channel", kind, where, i, m.Channel, len(m.Payload))
+				return false
+			}
+			next[m.Channel] = k + 1
+			return true
+		}
+		seen := map[string]int{}
+		for i, b := range ctlMsgs {
+			if wsp {
+				j := bytes.Index(b, []byte("\r\n\r\n"))
+				if j < 0 || !bytes.HasPrefix(b, []byte("WSP/1.1 ")) {
+					w.Fail("C13/ws-message", "WSP control message %d is not a WSP response: %q", i, b[:minInt(80, len(b))])
+					return
+				}
+				b = b[j+4:]
+				if len(b) == 0 {
+					continue
+				}
+			}
+			m, err := wsOneMessage(b)
+			if err != nil {
+				w.Fail("C13/ws-message", "%s control message %d (%d bytes) is not exactly one complete response or frame: %v", kind, i, len(b), err)
+				return
+			}
+			if m.Frame {
+				if wsp {
+					w.Fail("C13/ws-message", "WSP control message %d carries an interleaved frame", i)
+					return
+				}
+				if !checkFrame(i, m, "control") {
+					return
+				}
+				continue
+			}
+			seen[m.Header["cseq"]]++
+		}
+		for i, b := range dataMsgs {
+			m, err := wsOneMessage(b)
+			if err != nil || !m.Frame {
+				w.Fail("C13/ws-message", "WSP data-channel message %d (%d bytes) is not exactly one complete interleaved frame: %v", i, len(b), err)
+				return
+			}
+			if !checkFrame(i, m, "data") {
+				return
+			}
+		}
+		nf := 0
+		for _, k := range next {
+			nf += k
+		}
+		w.Logf("c13ws ctl=%d data=%d framesMatchedUpTo=%d", len(ctlMsgs), len(dataMsgs), nf)
+		if nf > 0 {
+			w.Probe("c13ws.frames-delivered")
+		}
+		for _, c := range sent {
+			if n := seen[fmt.Sprint(c)]; n != 1 {
+				w.Fail("C13/response-count", "%s: request CSeq %d got %d responses", kind, c, n)
+				return
+			}
+		}
+	}
+	cleanup := func(w *sim.World) { sw.teardown() }
+	return sim.Scenario{Main: main, Cleanup: cleanup}
 }
